@@ -335,6 +335,8 @@ def search(ctx, scale):
         for p, q in EXACT:
             if form in ('int', 'int-list') and any(float(v) != int(v) for v in p + q):
                 continue
+            if form == 'float32' and any(float(np.float32(v)) != float(v) for v in p + q):
+                continue          # only operands that are exact in the narrower type
             inp = {'p': list(map(float, p)), 'q': list(map(float, q)), 'r': [0.5, 0.5, -0.5, 0.5], 'form': form}
             ctx.check('pair', inp, _call(o_pair, inp), nontrivial_key=(form,) + key(p, q))
             inp = {'p': list(map(float, p)), 'form': form}
@@ -348,7 +350,7 @@ def search(ctx, scale):
             ctx.check('rows', inp, _call(o_rows, inp), nontrivial_key=(N,) + key(Pn, Qn))
         ex = [EXACT[j % len(EXACT)] for j in range(N)]
         for form in ('int', 'list', 'float32'):
-            rows = [e for e in ex if form != 'int' or all(float(v) == int(v) for v in e[0] + e[1])] or [EXACT[0]]
+            rows = [e for e in ex if all((float(v) == int(v)) if form == 'int' else (float(np.float32(v)) == float(v)) for v in e[0] + e[1])] or [EXACT[0]]
             rows = (rows * N)[:N]
             inp = {'P': [list(map(float, e[0])) for e in rows], 'Q': [list(map(float, e[1])) for e in rows], 'form': form}
             ctx.check('rows', inp, _call(o_rows, inp), nontrivial_key=(N, form))
